@@ -24,6 +24,7 @@ HOOK_DOC = ("ASSUMED abstract contract of the per-type hook: it may return anyth
 def result_shape(r):
     """what the documentation allows a hook to return: None, a Block, or a list / tuple (of blocks)"""
     return isnone(r) or (isref(r) and allocated(as_ref(r, 'ref:Block')) and (isinstance(r, Block) or isinstance(r, list) or isinstance(r, tuple))
+                        and implies(isinstance(r, list) or isinstance(r, tuple), len(as_ref(r, 'list:any')) >= 0)
                         and implies(isinstance(r, list) or isinstance(r, tuple),
                                     forall(q, 0 <= q < len(as_ref(r, 'list:any')), implies(isref(as_ref(r, 'list:any')[q]), allocated(as_ref(as_ref(r, 'list:any')[q], 'ref:Block'))))))
 
@@ -62,22 +63,47 @@ class _:
     modifies = ["ghost:base:int"]
 
 
+@pred
+def out_count(i):
+    """number of blocks the hook result for input block i contributes: 0 for None, 1 for a Block, its length for a list / tuple"""
+    return 0 if ghost('hk', i) == 0 else (1 if ghost('hk', i) == 1 else ghost('hl', i))
+
+
 @contract(BM + "transform#copy")
 class _:
     """copy mode: a fresh Library is returned and no object that existed at the call is modified -- the input library,
     its block list and indexes, every block, field, value and metadata object are what they were (empty footprint:
-    the frame obligations are the clauses of C07 for every BlockMiddleware-based middleware)"""
+    the frame obligations are the clauses of C07 for every BlockMiddleware-based middleware).
+
+    Splice protocol (C20): ghost code records, per input block i, the kind of the hook result (hk: 0 None, 1 Block,
+    2 list / tuple), its length (hl) and the position (so) at which its outputs start in the collected list.  The
+    outputs of input 0, 1, 2, ... follow each other without gaps in input order, None contributes nothing, a Block
+    exactly itself, a collection exactly len(collection) blocks; the returned library holds exactly the collected
+    blocks in that order (a block whose key is already taken comes wrapped, Library(blocks))."""
     sorts = {"self": "ref:BlockMiddleware", "library": "ref:Library", "result": "ref:Library"}
     requires = {"copy-mode": "not self._allow_inplace_modification",
                 "library-exists": "forall(i, 0 <= i < len(library._blocks), existed(library._blocks[i]))"}
     locals = {"blocks": "list:ref:Block"}
+    ghost_code = [
+        ("blocks = []", [("tn", None, "0")]),
+        ("transformed = self.transform_block(b, library)", [("so", "ghost('tn')", "len(blocks)")]),
+        ("pass", [("hk", "ghost('tn')", "0"), ("tn", None, "ghost('tn') + 1")]),
+        ("blocks.append(transformed)", [("hk", "ghost('tn')", "1"), ("hb", "ghost('tn')", "ref_id(blocks[len(blocks) - 1])"), ("tn", None, "ghost('tn') + 1")]),
+        ("blocks.extend(transformed)", [("hk", "ghost('tn')", "2"), ("hl", "ghost('tn')", "len(blocks) - ghost('so', ghost('tn'))"), ("tn", None, "ghost('tn') + 1")]),
+    ]
     loops = {1: {"cursor": "_i", "invariant": {
-        "range": "0 <= _i <= len(library._blocks) and fresh(blocks)",
+        "range": "0 <= _i <= len(library._blocks) and fresh(blocks) and ghost('tn') == _i and len(blocks) >= 0",
         "input-untouched": "same(library._blocks, old(library._blocks)) and len(library._blocks) == old(len(library._blocks)) and forall(i, 0 <= i < len(library._blocks), same(library._blocks[i], old(library._blocks[i])))",
         "collected-exist": "forall(t, 0 <= t < len(blocks), allocated(blocks[t])) and self._allow_inplace_modification == old(self._allow_inplace_modification)",
-    }, "props": ("C07",)},
+        "splice": "forall(i, 0 <= i < ghost('tn'), 0 <= ghost('hk', i) <= 2 and out_count(i) >= 0 and ghost('so', i) + out_count(i) == (ghost('so', i + 1) if i + 1 < ghost('tn') else len(blocks))) and implies(ghost('tn') > 0, ghost('so', 0) == 0) and implies(ghost('tn') == 0, len(blocks) == 0)",
+        "splice-block": "forall(i, 0 <= i < ghost('tn'), implies(ghost('hk', i) == 1, 0 <= ghost('so', i) < len(blocks) and ref_id(blocks[ghost('so', i)]) == ghost('hb', i)))",
+    }, "props": ("C07", "C20")},
         2: {"cursor": "_j", "invariant": {"items-checked": "0 <= _j and forall(q, 0 <= q < _j, isref(as_ref(transformed, 'list:any')[q]) and isinstance(as_ref(transformed, 'list:any')[q], Block))"},
             "props": ("C07",)}}
-    ensures = {"C07.fresh-library": "fresh(result)"}
+    ensures = {
+        "C07.fresh-library": "fresh(result)",
+        "C20.splice-order": "ghost('tn') == len(library._blocks) and forall(i, 0 <= i < ghost('tn'), 0 <= ghost('hk', i) <= 2 and out_count(i) >= 0 and ghost('so', i) + out_count(i) == (ghost('so', i + 1) if i + 1 < ghost('tn') else len(result._blocks))) and implies(ghost('tn') > 0, ghost('so', 0) == 0) and implies(ghost('tn') == 0, len(result._blocks) == 0)",
+        "C20.splice-block": "forall(i, 0 <= i < ghost('tn'), implies(ghost('hk', i) == 1, 0 <= ghost('so', i) < len(result._blocks) and (ref_id(result._blocks[ghost('so', i)]) == ghost('hb', i) or cls_is(result._blocks[ghost('so', i)], 'DuplicateBlockKeyBlock'))))",
+    }
     raises = {"Exception": {"when": None}}
-    modifies = ["ghost:base:int"]
+    modifies = ["ghost:base:int", "ghost:tn:int", "ghost:so:arr", "ghost:hk:arr", "ghost:hl:arr", "ghost:hb:arr"]
